@@ -15,12 +15,14 @@ def run(ck, tier):
     ck.rule("R-C07-pipeline", "execute_command, arms HarperAddToUserDict / HarperAddToFileDict: load -> append_word(first argument) -> save of the same dictionary value -> document refresh -> publish_diagnostics(file_url), each awaited, in this order on every path after the word is appended; load/save of the file dictionary use get_file_dict_path of the same url")
     ck.rule("R-C07-atomic", "save_dict never truncates the destination in place: it either does not open it for truncation, or writes another path and renames it over the destination after flushing")
     ck.rule("R-C07-format", "writer and reader of the dictionary file agree on the delimiter: write_word_list writes each word followed by one '\\n'; dict_from_word_list splits with str::lines")
+    ck.rule("R-C07-adopt", "the reloaded dictionary is adopted by open documents: harper-ls swaps dictionary and linter when `doc_state.dict != dict` (R-C05-rebuild); MergedDictionary equality compares the per-child hashes; add_dictionary records hash_dictionary(d) next to d; hash_dictionary feeds a hasher from words_iter() and reaches no case/apostrophe normaliser on the way, so two dictionaries that differ in a stored spelling never compare equal by construction")
     ck.not_decided += ["words containing a line break or differing only in case from an earlier word (value-level)", "multi-process races on the dictionary file", "harper-wasm import path is decided under C16 (R-C16-samedoc)"]
     p = facts.load()
     byk = fns_by_key(p)
     _pipeline(ck, p, byk)
     _atomic(ck, p, byk)
     _format(ck, p, byk)
+    _adopt(ck, p, byk)
 
 
 def _find(f, arm, suffix):
@@ -239,3 +241,67 @@ def _format(ck, p, byk):
         ls = [t for bi, t in r.calls() if inst_of(t) == "core::str::{impl}::lines"]
         other = [t for bi, t in r.calls() if method(t) in ("split", "split_whitespace", "split_terminator", "splitn", "split_ascii_whitespace")]
         ck.decide(rule, "dict_from_word_list", len(ls) == 1 and not other, r.span, "reader splits with str::lines (%d), other splitters: %d" % (len(ls), len(other)))
+
+
+# a function that forgets part of a word's spelling (case, apostrophe style, surrounding blanks)
+NORMALISER = re.compile(r"(::to_lowercase$|::to_uppercase$|::to_ascii_lowercase$|::to_ascii_uppercase$|::make_ascii_lowercase$|::make_ascii_uppercase$|"
+                        r"::to_lower$|::normalized$|::from_word_chars$|::from_word_str$|::trim(_\w+)?$|::eq_ignore_ascii_case$|unicode_normalization::)")
+
+
+def _adopt(ck, p, byk):
+    from .. import callgraph
+    from .c05 import _rebuild, _Sub
+    rule = "R-C07-adopt"
+    _rebuild(_Sub(ck, rule, ""), p)
+    MD = "harper_core::spell::merged_dictionary::"
+    eqs = [f for f in p.fns.values() if f.name.startswith(MD) and last(f.name) == "eq" and "PartialEq" in (f.get("impl_trait") or keyname(p, f))]
+    if ck.anchor(rule, "MergedDictionary::eq", eqs):
+        f = eqs[0]
+        ck.saw(f)
+        pv = Prov(f)
+        cmps = [(bi, t) for bi, t in f.calls() if def_of(t).endswith("cmp::PartialEq::eq") or def_of(t).endswith("cmp::PartialEq::ne")]
+        ok = len(cmps) == 1 and all("child_hashes" in arg_fields(pv, a) for a in cmps[0][1]["args"]) and \
+            {r for a in cmps[0][1]["args"] for r in arg_roots(f, pv, a) if r[0] == "arg"} == {("arg", 1), ("arg", 2)}
+        ck.decide(rule, "MergedDictionary::eq", ok, f.span, "equality is self.child_hashes == other.child_hashes: %s" % ok)
+    fs = byk.get("MergedDictionary::add_dictionary")
+    if ck.anchor(rule, "MergedDictionary::add_dictionary", fs):
+        f = fs[0]
+        ck.saw(f)
+        pv = Prov(f)
+        pushes = [(bi, t) for bi, t in f.calls() if method(t) == "push"]
+        hp = [t for _, t in pushes if "child_hashes" in arg_fields(pv, t["args"][0])]
+        cp = [t for _, t in pushes if "children" in arg_fields(pv, t["args"][0])]
+        ok = len(hp) == 1 and len(cp) == 1
+        if ok:
+            hroots = arg_roots(f, pv, hp[0]["args"][1])
+            hashed = [o for o in hroots if o[0] == "call" and (o[3] or "").endswith("::hash_dictionary")]
+            ok = bool(hashed) and ("arg", 2) in hroots and ("arg", 2) in arg_roots(f, pv, cp[0]["args"][1])
+        ck.decide(rule, "MergedDictionary::add_dictionary", ok, f.span, "child_hashes.push(hash_dictionary(d)) and children.push(d) for the same d: %s" % ok)
+    fs = byk.get("MergedDictionary::hash_dictionary")
+    if ck.anchor(rule, "MergedDictionary::hash_dictionary", fs):
+        f = fs[0]
+        ck.saw(f)
+        bodies = [f]
+        todo = [f]
+        while todo:
+            x = todo.pop()
+            for c in p.closures_of(x.name):
+                bodies.append(c)
+                todo.append(c)
+        feeds = [(b, t) for b in bodies for _, t in b.calls() if re.search(r"hash::Hasher::write|hash::Hash::hash|::write_(u|i)(8|16|32|64|128|size)$|::write$|::hash_one$|::hash_slice$", def_of(t) or inst_of(t))]
+        iters = [(b, t) for b in bodies for _, t in b.calls() if def_of(t).endswith("Dictionary::words_iter") or inst_of(t).endswith("::words_iter")]
+        g = callgraph.CallGraph(p.snap)
+        roots = [b.name for b in bodies]
+        blocked = [q for q in list(g.funcs) + list(g.ext_names) if q.endswith("::words_iter") or q.endswith("fst_dictionary::{impl#1}::curated")]
+        par = g.reach(roots, blocked)
+        lossy = sorted(q for q in par if NORMALISER.search(q))
+        ck.extra["hash_dictionary_reach"] = len(par)
+        if not feeds or not iters:
+            ck.refuted(rule, "MergedDictionary::hash_dictionary", f.span, "no hasher is fed from words_iter() (hasher feeds: %d, words_iter calls: %d)" % (len(feeds), len(iters)))
+        elif lossy:
+            best = min((g.path(par, q) for q in lossy), key=len)
+            path = " -> ".join(g.pretty(q) for q in best)
+            ck.refuted(rule, "MergedDictionary::hash_dictionary", f.span,
+                       "the per-child hash goes through a normaliser (%s): two dictionaries that differ only in what it forgets (letter case, apostrophe style) compare equal, so harper-ls keeps the old dictionary and linter after the add" % path, {"path": path})
+        else:
+            ck.proved(rule, "MergedDictionary::hash_dictionary", f.span, "%d hasher feed(s) from words_iter(); %d functions reachable from the hashing code, none forgets part of a spelling" % (len(feeds), len(par)))
